@@ -68,6 +68,31 @@ pub fn c05_q_single_bit_flip() {
     kani::cover!(true);
 }
 
+/// C05 on the bit-serial path: whatever frame (valid or corrupted) came before, a frame shifted in
+/// bit by bit is accepted exactly when valid and then yields exactly its data bits.
+#[kani::proof]
+#[kani::unwind(12)]
+pub fn c05_q_serial_frame_after_any_frame() {
+    let mut d = Ps2Decoder::new();
+    let mut i = 0u8;
+    while i < 11 {
+        let _ = d.add_bit(kani::any());
+        i += 1;
+    }
+    let mut w = 0u16;
+    let mut last = Ok(None);
+    let mut n = 0u8;
+    while n < 11 {
+        let b: bool = kani::any();
+        w |= (b as u16) << n;
+        last = d.add_bit(b);
+        n += 1;
+    }
+    crate::show!("C05 serial second frame={:#06x} got={:?} want={:?}", w, last, ref_frame(w).map(Some));
+    assert!(last == ref_frame(w).map(Some), "C05: frame shifted in after another frame is not accepted/rejected by the start/stop/parity rule");
+    kani::cover!(matches!(last, Ok(Some(_))));
+}
+
 /// C05 thorough: two-bit corruptions are accepted only if they leave start/stop alone and keep
 /// parity odd, and then deliver exactly the corrupted data bits (never some third byte).
 #[kani::proof]
